@@ -533,7 +533,7 @@ class Tr9(Tr):
             return f"(PyC09.setMax {a})", "Nat"
         if d == "set" and not n.args:
             return "([] : List Nat)", S
-        if d in ("set", "list") and len(n.args) == 1:
+        if d in ("set", "list", "tuple") and len(n.args) == 1:
             a, ty = self.e(n.args[0])
             if ty == S or (isinstance(ty, tuple) and ty[0] == "L"):
                 return a, (S if d == "set" and self.compatible(self.elem_type(ty), "Nat") else ty)
@@ -1001,8 +1001,11 @@ class Tr9(Tr):
             if not vars_:
                 vars_ = ["s"] if "s" in ctx.vars else list(ctx.vars)
             inner = Ctx(vars_)
-            live = mut and ety == "Lanelet" and isinstance(s.iter, ast.Attribute) and s.iter.attr == "lanelets" \
-                and self.e(s.iter.value)[0] == "s.net"
+            src = s.iter
+            while isinstance(src, ast.Call) and self.dotted(src.func) in ("list", "tuple") and len(src.args) == 1:
+                src = src.args[0]                       # a copy of the list still holds the same (mutable) lanelet objects
+            live = mut and ety == "Lanelet" and isinstance(src, ast.Attribute) and src.attr == "lanelets" \
+                and self.e(src.value)[0] == "s.net"
             b = self.block(body, inner)
             self.env = env0
             st = inner.pack() if len(vars_) == 1 else "st"
